@@ -153,9 +153,7 @@ class Run:
         ./out/.  Returns the list of behaviours (each a list of op records)."""
         d = self._tlc_dir(name, [])
         cfgtxt = open(os.path.join(SPEC, cfg)).read()
-        if consts:
-            for k, v in consts.items():
-                cfgtxt = re.sub(r"(?m)^(\s*%s\s*=\s*).*$" % re.escape(k), r"\g<1>%s" % v, cfgtxt)
+        cfgtxt = _apply_consts(cfgtxt, consts)
         with open(os.path.join(d, cfg), "w") as f:
             f.write(cfgtxt)
         os.makedirs(os.path.join(d, "out"), exist_ok=True)
@@ -184,9 +182,7 @@ class Run:
           {hw: highest line index explained + 1, len: number of lines, div: first divergence or NoDiv}."""
         d = self._tlc_dir(name, [])
         cfgtxt = open(os.path.join(SPEC, cfg)).read()
-        if consts:
-            for k, v in consts.items():
-                cfgtxt = re.sub(r"(?m)^(\s*%s\s*=\s*).*$" % re.escape(k), r"\g<1>%s" % v, cfgtxt)
+        cfgtxt = _apply_consts(cfgtxt, consts)
         with open(os.path.join(d, cfg), "w") as f:
             f.write(cfgtxt)
         shutil.copy(trace_file, os.path.join(d, "trace.ndjson"))
@@ -253,6 +249,22 @@ class Run:
             sys.exit(2)
         log("OK property=%s tier=%s seed=%d wall=%.1fs" % (self.pid, self.tier, self.seed, time.time() - self.t0))
         sys.exit(0)
+
+
+def _apply_consts(cfgtxt, consts):
+    """Constants of a cfg: `NAME = value` lines are rewritten; a value "<- Op" substitutes a definition of the module
+    (`NAME <- Op`, added to the CONSTANTS section when the cfg does not mention NAME)."""
+    for k, v in (consts or {}).items():
+        v = str(v)
+        if v.startswith("<-"):
+            line = "  %s %s" % (k, v)
+            if re.search(r"(?m)^\s*%s\s*(=|<-)" % re.escape(k), cfgtxt):
+                cfgtxt = re.sub(r"(?m)^\s*%s\s*(=|<-).*$" % re.escape(k), line, cfgtxt)
+            else:
+                cfgtxt = re.sub(r"(?m)^(CONSTANTS?\s*)$", "\\1\n" + line, cfgtxt, count=1)
+        else:
+            cfgtxt = re.sub(r"(?m)^(\s*%s\s*=\s*).*$" % re.escape(k), r"\g<1>%s" % v, cfgtxt)
+    return cfgtxt
 
 
 # -------------------------------------------------------------------- known findings
